@@ -574,17 +574,21 @@ bool qhashtbl_getnext(qhashtbl_t *tbl, qhashtbl_obj_t *obj, const bool newmem) {
 
     if (cursor != NULL) {
         if (newmem == true) {
-            obj->name = strdup(cursor->name);
-            obj->data = malloc(cursor->size);
-            if (obj->name == NULL || obj->data == NULL) {
+            // obj is the caller's cursor: it is only updated on success, so
+            // that the walk can be continued after a failure.
+            char *dupname = strdup(cursor->name);
+            void *dupdata = malloc(cursor->size);
+            if (dupname == NULL || dupdata == NULL) {
                 DEBUG("getnext(): Unable to allocate memory.");
-                free(obj->name);
-                free(obj->data);
+                free(dupname);
+                free(dupdata);
                 qhashtbl_unlock(tbl);
                 errno = ENOMEM;
                 return false;
             }
-            memcpy(obj->data, cursor->data, cursor->size);
+            memcpy(dupdata, cursor->data, cursor->size);
+            obj->name = dupname;
+            obj->data = dupdata;
             obj->size = cursor->size;
         } else {
             obj->name = cursor->name;
